@@ -47,12 +47,15 @@ func NewAux(fd *slip.FuncDoc) *Aux {
 		dk = append(dk, 't', '|')
 		cnt++
 	}
+	if 2 <= len(dk) {
+		dk = dk[:len(dk)-2]
+	}
 	return &Aux{
 		cache:      map[string]*slip.Method{},
 		methods:    map[string]*slip.Method{},
 		docs:       fd,
 		reqCnt:     cnt,
-		defaultKey: string(dk[:len(dk)-2]),
+		defaultKey: string(dk),
 	}
 }
 
